@@ -212,6 +212,7 @@ class FakeNet:
         self._saved = None
         self.frozen = False         # set by harnesses after shutdown: any activity is recorded as late
         self.late = []
+        self.inflight_opens = []    # connections whose attempt predates the freeze but which opened after it
 
     def install(self):
         self._saved = asyncio.open_connection
@@ -239,6 +240,7 @@ class FakeNet:
         n = len(self.attempts)
         t = self.loop.time()
         self.events.append(("attempt", n, t))
+        started_frozen = self.frozen
         if self.frozen:
             self.late.append(("attempt", t))
         act = self.on_connect(self, n) if self.on_connect else ("accept", 0)
@@ -259,7 +261,11 @@ class FakeNet:
         self.max_open = max(self.max_open, self.open_count)
         self.events.append(("open", conn.index, self.loop.time()))
         if self.frozen:
-            self.late.append(("open", self.loop.time()))
+            if started_frozen:
+                self.late.append(("open", self.loop.time()))
+            else:
+                # an attempt that was already in flight when the network was frozen completes now
+                self.inflight_opens.append(conn)
         if self.on_accept:
             self.loop.call_soon(self.on_accept, conn)
         return reader, conn.writer
